@@ -641,6 +641,13 @@ def check_exp_golomb_agreement(ctx, F):
         ctx.ok('R4', roleC, dec[0].defpath, '%d continuing iteration(s), each with `stepped count <= bits of the type` decided' % n_back, key=keyC)
     for r in oks:
         reads_tail = False
+        # the same loop driven by a short-circuiting adaptor: (0..count).try_fold(..) / try_for_each(..)
+        for x in ([r.ret] if r.ret is not None else []) + [e['result'] for e in r.events if e['kind'] == 'call'] + [t for t, v, _ in r.preds]:
+            for y in sym.subterms(x):
+                if isinstance(y, tuple) and y and y[0] == 'call' and str(y[1]).endswith(('Iterator::try_fold', 'Iterator::try_for_each')) and y[2]:
+                    for z in sym.subterms(y[2][0]):
+                        if isinstance(z, tuple) and z and z[0] == 'agg' and 'Range' in str(z[1]) and len(z[2]) == 2 and z[2][1] == L and sym.is_int(z[2][0]) and z[2][0][1] == 0:
+                            reads_tail = True
         for e in r.events:
             if e['kind'] == 'loop_enter':
                 for v in e['pre'].values():
@@ -652,6 +659,45 @@ def check_exp_golomb_agreement(ctx, F):
             ctx.bad('R4', roleB, dec[0].defpath, 'an accepting path returns without the loop over 0..count that reads the bits behind the marker: the writer emits them for every symbol, so the reader stops in the middle of the code word and the next symbol is read from its tail', key=keyB, loc=rules.loc(dec[0]))
             return
     ctx.ok('R4', roleB, dec[0].defpath, '%d accepting path(s), each through the loop over 0..count' % len(oks), key=keyB)
+
+
+def check_symbol_delegation(ctx, F):
+    """The bit coders do not interpret code words: `decode_symbol` hands the coder itself (as the bit source) to the code book and
+    returns what the code book returns.  A read-ahead (`peek`), a pre-check on the buffered bits or any other exit in front of
+    the code book changes what the code book sees: a bit that is popped for a look is gone when the code book consumes none (the
+    empty code word of a one-symbol tree), and buffered zeros are data, not padding (the all-zero code word).  Rule: on every
+    path exactly one call, the code book's `decode_symbol` with the coder as its source, and the result is that call's result."""
+    n = 0
+    for b in F.bodies:
+        if b.promoted is not None or b.name != 'decode_symbol' or b.impl_trait != 'symbol::ReadBitStream' or b.dk != 'AssocFn' or '::tests::' in b.defpath:
+            continue
+        n += 1
+        key = 'R1/decode-symbol-delegates/' + b.defpath
+        role = 'decode_symbol is a pure delegation to the code book with the coder as the bit source'
+        ctx.touch(b)
+        _, paths = rules.evaluate(b)
+        bad = None
+        for r in paths or []:
+            if r.end not in ('return', 'backedge'):
+                continue
+            cb = [e for e in r.events if e['kind'] == 'call' and e['callee'] == 'symbol::DecoderCodebook::decode_symbol']
+            others = [e for e in r.events if e['kind'] == 'call' and e not in cb and (e.get('uid') is not None or any(isinstance(a, tuple) and a and a[0] == 'ref' and len(a) > 2 and a[2] and tuple(a[1])[:1] == (1,) for a in e['args']))]
+            src_is_self = lambda a: a == ('arg', 1) or a == ('ref', (1, 'deref'), True) or a == ('in', (1,))
+            if others:
+                bad = 'the coder is touched by `%s` in front of / besides the code book: bits popped or examined there never reach the code book' % others[0]['callee'].rsplit('::', 1)[-1]
+            elif len(cb) != 1:
+                bad = 'a path %s without consulting the code book' % ('returns' if r.end == 'return' else 'loops') if not cb else 'the code book is consulted %d times on one path' % len(cb)
+            elif not src_is_self(cb[0]['args'][1]) or r.ret != cb[0]['result']:
+                bad = 'the code book does not receive the coder itself as its source, or its result is not what is returned'
+            if bad:
+                break
+        if bad:
+            ctx.bad('R1', role, b.defpath, bad, key=key, loc=rules.loc(b))
+        elif not paths:
+            ctx.unresolved('R1', role, b.defpath, 'not evaluated', key=key)
+        else:
+            ctx.ok('R1', role, b.defpath, 'codebook.decode_symbol(self)', key=key)
+    ctx.floor('R1', 'floor: ReadBitStream::decode_symbol impls', 'symbol', n, 2, 'only %d impls of ReadBitStream::decode_symbol found (stack coder and queue decoder expected)' % n, key='R1/floor/decode-symbol-delegates', public=True)
 
 
 def run(ctx):
@@ -683,6 +729,7 @@ def run(ctx):
     check_marker(ctx, F)
     check_queue_exhaustion(ctx, F)
     check_exp_golomb_agreement(ctx, F)
+    check_symbol_delegation(ctx, F)
     c18.check_bit_coder_sentinel(ctx, F)
     c08.check_bit_guards(ctx, F)
     if ctx.tier == 'thorough':
